@@ -3,7 +3,7 @@
 export GOFLAGS=-mod=mod GOPROXY=off GOSUMDB=off GOTOOLCHAIN=local
 V=$(cd "$(dirname "$0")/.." && pwd)
 for d in "$V"/seeded/C*; do
-  id=$(basename $d)
+  slot=$(basename $d); id=${slot:0:3}
   D=$(mktemp -d /tmp/vseed.XXXXXX)
   rsync -a --exclude .git /repo/ "$D/"
   if ! (cd "$D" && git init -q . && git apply "$d/patch.diff" 2>/dev/null); then
@@ -15,6 +15,6 @@ for d in "$V"/seeded/C*; do
   fi
   mkdir -p "$D/.verif"; cp "$V/known_findings.txt" "$D/.verif/"; cp -r "$V/testdata" "$D/.verif/"
   "$V/bin/vcheck" -p $id -repo "$D" -verif "$D/.verif" > "$D/.out" 2>&1; r=$?
-  echo "$id exit=$r $(grep -cE '^  (VIOLATED|UNDECIDED)' "$D/.out") alarms: $(grep -E '^  (VIOLATED|UNDECIDED)' "$D/.out" | awk '{print $2":"$3}' | sort -u | head -4 | tr '\n' ' ')"
+  echo "$slot exit=$r $(grep -cE '^  (VIOLATED|UNDECIDED)' "$D/.out") alarms: $(grep -E '^  (VIOLATED|UNDECIDED)' "$D/.out" | awk '{print $2":"$3}' | sort -u | head -4 | tr '\n' ' ')"
   rm -rf "$D"
 done
